@@ -178,4 +178,116 @@ Proof.
   constructor; [exact Ho|constructor].
 Qed.
 
+(* ---- pack_all_loose (one pack): body, COMMIT, then the per-pack unlinks of the loose files just packed ---- *)
+Definition sqls (tr : list event) : list sqlop := flat_map (fun e => match e with ESql q => [q] | _ => [] end) tr.
+
+Lemma body_pending_eq w0 : forall tr s, Forall (body_ev w0) tr -> pending (snd (run_events s tr)) = pending (snd s) ++ sqls tr.
+Proof.
+  clear H_inj. induction tr as [|e t IH]; intros s Hf; [cbn; rewrite app_nil_r; reflexivity|].
+  inversion Hf as [|? ? He Ht]; subst. cbn [run_events fold_left]. fold (run_events (apply_ev s e) t).
+  rewrite (IH _ Ht). destruct s as [w l]. cbn [snd]. unfold sqls. cbn [flat_map]. fold (sqls t).
+  assert (Hstep : pending (snd (apply_ev (w, l) e)) = pending l ++ match e with ESql q => [q] | _ => [] end).
+  { destruct e; cbn [body_ev] in He; try contradiction; cbn [apply_ev]; rewrite ?app_nil_r.
+    - reflexivity.
+    - destruct (get_buf l h); reflexivity.
+    - exact (proj2 (flush_db w l h)).
+    - destruct (get_file w h); reflexivity.
+    - pose proof (flush_db w l h) as [_ B]. destruct (flush_h w l h) as [w' l']. cbn [snd] in *. exact B.
+    - pose proof (flush_db w l (HPack id)) as [_ B]. destruct (flush_h w l (HPack id)) as [w' l']. cbn [snd] in *.
+      destruct (get_pack w' id); exact B.
+    - reflexivity. }
+  rewrite Hstep, <- app_assoc. reflexivity.
+Qed.
+
+Lemma unlinks_keep_db : forall ks s, db (fst (run_events s (map EUnlinkLoose ks))) = db (fst s).
+Proof.
+  clear H_inj. induction ks as [|k t IH]; intros s; [reflexivity|].
+  cbn [map run_events fold_left]. fold (run_events (apply_ev s (EUnlinkLoose k)) (map EUnlinkLoose t)). rewrite IH.
+  destruct s as [w l]. reflexivity.
+Qed.
+
+Definition pack_body (w : world) (id : Z) (objs : list pobj) (fs : bool) : list event :=
+  EOpenPack id :: map (fun o => EWrite (HPack id) (oblob o)) objs ++
+  [ESql (SInsert false (rows_from id (pack_len w id) objs))] ++
+  (if fs then [EFlush (HPack id); EFsync (HPack id)] else []) ++ [EClose (HPack id)].
+
+Lemma p_pack_one_split w id objs fs clean :
+  p_pack_one w id objs fs clean = (pack_body w id objs fs ++ [ECommit]) ++ (if clean then map (fun o => EUnlinkLoose (okey o)) objs else []).
+Proof. clear H_inj. unfold p_pack_one, pack_body. cbn [app]. rewrite <- !app_assoc. cbn [app]. destruct fs; reflexivity. Qed.
+
+Lemma pack_body_ev w id objs fs : Forall (body_ev w) (pack_body w id objs fs).
+Proof.
+  clear H_inj. unfold pack_body. constructor; [exact I|]. apply Forall_app. split.
+  - apply Forall_forall. intros e He. apply in_map_iff in He as (o & <- & _). exact I.
+  - constructor; [reflexivity|]. destruct fs; repeat constructor.
+Qed.
+
+Lemma pack_body_sqls w id objs fs : sqls (pack_body w id objs fs) = [SInsert false (rows_from id (pack_len w id) objs)].
+Proof.
+  clear H_inj. unfold pack_body, sqls. cbn [flat_map]. rewrite flat_map_app.
+  assert (Hw : flat_map (fun e => match e with ESql q => [q] | _ => [] end) (map (fun o => EWrite (HPack id) (oblob o)) objs) = []).
+  { induction objs as [|o t IH]; [reflexivity|exact IH]. }
+  rewrite Hw. destruct fs; reflexivity.
+Qed.
+
+Theorem pack_one_every_step_c13 w l id objs fs clean :
+  Inv w -> pending l = [] ->
+  forall a e b, p_pack_one w id objs fs clean = a ++ e :: b -> c13_ok_b H (run_events (w, l) a) e = true.
+Proof.
+  intros HI Hp a e b Heq. rewrite p_pack_one_split in Heq.
+  set (B := pack_body w id objs fs ++ [ECommit]) in *.
+  set (U := if clean then map (fun o => EUnlinkLoose (okey o)) objs else []) in *.
+  (* the position of e: inside B, or among the unlinks *)
+  assert (Hcases : (exists b', B = a ++ e :: b') \/ (exists a' , a = B ++ a' /\ U = a' ++ e :: b)).
+  { clear - Heq. revert a Heq. induction B as [|x t IH]; intros a Heq.
+    - right. exists a. split; [reflexivity|exact Heq].
+    - destruct a as [|y a']; cbn in Heq.
+      + inversion Heq; subst. left. exists t. reflexivity.
+      + inversion Heq as [[E1 E2]]. subst y. destruct (IH a' E2) as [(b' & ->)|(a2 & -> & HU)].
+        * left. exists b'. reflexivity.
+        * right. exists a2. split; [reflexivity|exact HU]. }
+  destruct Hcases as [(b' & EB)|(a' & -> & EU)].
+  - exact (body_commit_c13 w l (pack_body w id objs fs) HI Hp (pack_body_ev w id objs fs) a e b' EB).
+  - (* an unlink after the commit: its key was just committed *)
+    destruct clean; [|destruct a'; discriminate].
+    assert (He : exists o, In o objs /\ e = EUnlinkLoose (okey o)).
+    { assert (Hin : In e U) by (rewrite EU; apply in_or_app; right; left; reflexivity).
+      apply in_map_iff in Hin as (o & <- & Ho). exists o. auto. }
+    destruct He as (o & Ho & ->).
+    assert (Ha' : exists ks, a' = map EUnlinkLoose ks).
+    { clear - EU. revert a' EU. unfold U. generalize objs as os. induction os as [|x t IH]; intros a' EU.
+      - destruct a'; discriminate.
+      - destruct a' as [|y a2]; [exists []; reflexivity|]. cbn [map] in EU. inversion EU as [[E1 E2]].
+        destruct (IH a2 E2) as (ks & ->). exists (okey x :: ks). reflexivity. }
+    destruct Ha' as (ks & ->).
+    unfold run_events. rewrite fold_left_app. fold (run_events (w, l) B). fold (run_events (run_events (w, l) B) (map EUnlinkLoose ks)).
+    pose proof (unlinks_keep_db ks (run_events (w, l) B)) as Hdb.
+    destruct (run_events (run_events (w, l) B) (map EUnlinkLoose ks)) as [wu lu]. cbn [fst] in Hdb.
+    cbn [c13_ok_b mono_ok_b]. rewrite Hdb.
+    (* the index after the commit *)
+    unfold B. unfold run_events. rewrite fold_left_app. fold (run_events (w, l) (pack_body w id objs fs)). cbn [fold_left].
+    pose proof (body_keeps_db w _ (w, l) (pack_body_ev w id objs fs)) as Hd. cbn [fst] in Hd.
+    pose proof (body_pending_eq w _ (w, l) (pack_body_ev w id objs fs)) as Hq. cbn [snd] in Hq. rewrite Hp, pack_body_sqls in Hq. cbn [app] in Hq.
+    destruct (run_events (w, l) (pack_body w id objs fs)) as [wb lb]. cbn [fst snd] in *.
+    cbn [apply_ev fst db set_db]. rewrite Hq, Hd. cbn [fold_left apply_sql].
+    apply has_key_in.
+    assert (Hk : In (okey o) (map rkey (rows_from id (pack_len w id) objs))) by (rewrite rows_from_keys; apply in_map; exact Ho).
+    apply in_map_iff in Hk as (r & <- & Hr). apply insert_rows_adds. exact Hr.
+Qed.
+
+Theorem pack_one_every_step_keeps_ref w l id objs fs clean :
+  Inv w -> pending l = [] ->
+  Forall (obj_ok inflate w) objs -> NoDup (map okey objs) -> (forall o, In o objs -> ~ In (okey o) (map rkey (db w))) ->
+  forall a e b, p_pack_one w id objs fs clean = a ++ e :: b ->
+    keeps_ref (fst (run_events (w, l) a)) (fst (run_events (w, l) (a ++ [e]))).
+Proof.
+  intros HI Hp Ho Hn Hf a e b Heq.
+  assert (HIa : Inv (fst (run_events (w, l) a))).
+  { pose proof (pack_one_always H inflate H_inj w l id objs fs clean HI Hp Ho Hn Hf (length a)) as (A & _).
+    rewrite Heq in A. rewrite firstn_app, firstn_all, Nat.sub_diag in A. cbn [firstn] in A. rewrite app_nil_r in A. exact A. }
+  unfold run_events at 2. rewrite fold_left_app. cbn [fold_left]. fold (run_events (w, l) a).
+  apply (c13_step H inflate H_inj); [exact HIa|].
+  exact (pack_one_every_step_c13 w l id objs fs clean HI Hp a e b Heq).
+Qed.
+
 End C13P.
